@@ -234,8 +234,39 @@ let register (reg : ostring -> (ostring list -> ostring list) -> (ostring list -
   reg "mco" mco_model (equal_monitor "connector" mco_model);
   reg "mto" mto_model (equal_monitor "timeout store" mto_model);
   reg "sq" sq_model (equal_monitor "SQL store" sq_model);
-  let sqt_model a = List.map tobs_str (tref_run rtstore0 (List.map parse_top a)) @ ["log:ok"] in
+  (* the reference's answers; next to them the extracted statement-level model of adapters/sqltimeout (coq/model/SqlTimeout.v):
+     inside its domain it must agree with the reference (contradicts C18_sqltimeout_refines otherwise) *)
+  let sqt_model a =
+    let ops = List.map parse_top a in
+    let r = tref_run rtstore0 ops in
+    if tsql_run_dom mtstore0 ops && tsql_run mtstore0 ops <> r then
+      failwith "extracted SqlTimeout model and the reference timer list disagree inside the domain (contradicts C18_sqltimeout_refines)";
+    List.map tobs_str r @ ["log:ok"] in
   reg "sqt" sqt_model (equal_monitor "SQL timeout store" sqt_model);
+  (* trgmem: trigger.go's decision (refuse iff the latest-created run of the foreign ID is valid and unfinished: rs_valid,
+     rs_finished, the reference store's Latest) over the reference store, run numbers = creation order *)
+  let trg_model a =
+    let rs = ref rstore0 and nrun = ref 0 and created = ref [] in
+    List.map (fun op ->
+      match split '.' op with
+      | ["t"; fid] ->
+        let fid = n_of_int (ios fid) in
+        (match ref_step !rs (SLatest (n_of_int 1, fid)) with
+         | (_, ObRec (Some r)) when rs_valid r.r_state && not (rs_finished r.r_state) -> "inprog"
+         | _ ->
+           incr nrun;
+           let r = { r_wf = n_of_int 1; r_fid = fid; r_run = n_of_int !nrun; r_state = RSInitiated; r_status = zi 1; r_obj = OVal (Z0, []);
+                     r_created = zi !nrun; r_updated = zi !nrun; r_ver = zi 1; r_reason = N0; r_desc = zi 1 } in
+           rs := fst (ref_step !rs (SStore r)); created := !created @ [r.r_run]; "ok")
+      | ["w"; k; state] ->
+        let k = ios k in
+        if k < 1 || k > List.length !created then "nf"
+        else (match ref_step !rs (SLookup (List.nth !created (k - 1))) with
+          | (_, ObRec (Some r)) ->
+            rs := fst (ref_step !rs (SStore { r with r_state = rs_of_int (ios state); r_ver = Wfmodel.Z.add r.r_ver (zi 1) })); "ok"
+          | _ -> "nf")
+      | _ -> failwith ("trgmem op " ^ op)) a in
+  reg "trgmem" trg_model (equal_monitor "Trigger on the in-memory store" trg_model);
   (* role scheduler: an acceptor — never two live holders of one role; every Await call returns in the end *)
   let mro_model a =
     let n = List.length (List.filter (fun o -> String.length o > 0 && o.[0] = 'a') a) in
